@@ -126,6 +126,9 @@ class _PanelSpy(SkBase):
         self.train_print_ = _h(sorted(zip(ids, [str(v) for v in np.asarray(y)])),
                                [str(c) for c in X.columns], self.n_fits_)
         self.classes_ = np.unique(np.asarray(y))
+        # when (in simulated event order) this fit happened: no effect on predictions, but two
+        # fits of equal clones leave distinguishable pickles
+        self.fit_event_ = CTX.event
         return self
 
     def _values(self, X):
@@ -307,12 +310,40 @@ def __getattr__(name):
             _SPY_CACHE[name] = _make_xinc_forecaster()
             globals()[name] = _SPY_CACHE[name]
         return _SPY_CACHE[name]
+    if name == "FailingNaive":
+        if name not in _SPY_CACHE:
+            _SPY_CACHE[name] = _make_failing_naive()
+            globals()[name] = _SPY_CACHE[name]
+        return _SPY_CACHE[name]
     if name == "SpyTransformer":
         if name not in _SPY_CACHE:
             _SPY_CACHE[name] = _make_spy_transformer()
             globals()[name] = _SPY_CACHE[name]
         return _SPY_CACHE[name]
     raise AttributeError(name)
+
+
+def _make_failing_naive():
+    from sktime.forecasting.naive import NaiveForecaster
+
+    class FailingNaive(NaiveForecaster):
+        """A real NaiveForecaster whose fit raises when the training series has exactly
+        `fail_len` points (fault injection by data: e.g. only the refit on the whole series
+        fails, never a fit on a fold)."""
+
+        def __init__(self, strategy="last", window_length=None, sp=1, fail_len=None):
+            self.fail_len = fail_len
+            super(FailingNaive, self).__init__(strategy=strategy, window_length=window_length, sp=sp)
+
+        def fit(self, y, X=None, fh=None):
+            if self.fail_len is not None and len(y) == self.fail_len:
+                self._is_fitted = False
+                raise InjectedFault("injected: fit on %d points fails" % len(y))
+            return super(FailingNaive, self).fit(y, X=X, fh=fh)
+
+    FailingNaive.__module__ = "simkit.peers"
+    FailingNaive.__qualname__ = "FailingNaive"
+    return FailingNaive
 
 
 def _make_spy_transformer():
